@@ -8,8 +8,9 @@
                                              needs no further handling;
                                              RST: remove by mid, NACK(RST) (with sent = NULL
                                              when nothing matched);
-                                             NON: coap_remove_from_queue by the mid of the
-                                             received message (!), then handle_response;
+                                             NON: the look-up by the received mid never matches
+                                             a queued Confirmable (fix of C07-F4), then
+                                             handle_response with sent = NULL;
                                              CON: handle_response with sent = NULL
      handle_response                         coap_cancel_all_messages by token unless ACK;
                                              duplicate filter on last_con_mid / last_ack_mid;
@@ -126,7 +127,16 @@ Definition ex_cli_step (maxr : Z) (c : ex_cli) (i : ex_cin) : ex_cli * list ex_o
              [ExTx (ex_req_of q)])
           else (ex_set_q c None, [ExNack (ex_q_tok q) 0 (ex_q_mid q)])
       end
-  | ExRx (ExAckE mid) _ => (fst (ex_remove_mid c mid), [])
+  | ExRx (ExAckE mid) _ =>
+      (* an empty ACK for the queued request: the request leaves the queue; coap_dispatch sets
+         up a lg_crcv for the separate response, which draws a token number
+         (coap_block_new_lg_crcv: ++session->tx_token) *)
+      let (c1, sent) := ex_remove_mid c mid in
+      match sent with
+      | Some _ => (Build_ex_cli (ex_c_q c1) (ex_c_lcon c1) (ex_c_lack c1) (ex_c_lres c1)
+                                (ex_c_mid c1) (ex_c_tok c1 + 1), [])
+      | None => (c1, [])
+      end
   | ExRx (ExAckR mid tok) ok =>
       let (c1, sent) := ex_remove_mid c mid in
       if mid =? ex_c_lack c1 then (c1, [])
@@ -143,9 +153,9 @@ Definition ex_cli_step (maxr : Z) (c : ex_cli) (i : ex_cin) : ex_cli * list ex_o
                                (ex_c_tok c1) in
         ex_deliver c2 0 mid tok None ok
   | ExRx (ExNonR mid tok) ok =>
-      let (c1, sent) := ex_remove_mid c mid in
-      let c2 := ex_cancel_tok c1 tok in
-      ex_deliver c2 1 mid tok sent ok
+      (* the NON branch looks the received mid up in the send queue but never matches a
+         Confirmable (after the fix of finding C07-F4), so [sent] is NULL here *)
+      ex_deliver (ex_cancel_tok c tok) 1 mid tok None ok
   | ExRx (ExRst mid) _ =>
       let (c1, sent) := ex_remove_mid c mid in
       match sent with
